@@ -40,7 +40,7 @@ enum Ty {
 /// Not included: array lengths written as block / operator expressions (`[u8; { 1 + 2 }]`, `[u8; (1 << 2) as usize]`):
 /// the pinned macros reject them at compile time (syn without its "full" feature: "unsupported expression"), loudly,
 /// so there is no derived set whose behaviour could be compared.
-const GENERIC_TYPES: [&str; 19] = [
+const GENERIC_TYPES: [&str; 21] = [
     "ProbeG<u8>",
     "ProbeG<fn(u64) -> bool>",
     "ProbeG<Box<dyn Fn(u64) -> bool>>",
@@ -60,6 +60,9 @@ const GENERIC_TYPES: [&str; 19] = [
     "ProbeG<Option<fn() -> Result<u8, u16>>>",
     "ProbeG<[fn(u8) -> u8; 2]>",
     "ProbeG<()>",
+    // a stateless, zero-sized agent (it still takes its draw and places its order on every update)
+    "ProbeZ",
+    "ProbeG<ProbeZ>",
 ];
 
 struct Shape {
@@ -264,7 +267,7 @@ fn emit(out: &mut String, module: &str, base: &str, market: bool, shapes: &[Shap
                 Ty::Builtin => "new_builtin(tag)".to_string(),
                 Ty::Nested(j) => format!("S{}::build(tag)", j),
                 Ty::NestedBase(j) => format!("super::{}::S{}::build(tag)", base, j),
-                Ty::Generic(g) => if GENERIC_TYPES[*g].starts_with("<ProbeA") { "ProbeA::new(tag)".to_string() } else if GENERIC_TYPES[*g].starts_with("(ProbeB") { "ProbeB::new(tag)".to_string() } else { "ProbeG::new(tag)".to_string() },
+                Ty::Generic(g) => if GENERIC_TYPES[*g].starts_with("<ProbeA") { "ProbeA::new(tag)".to_string() } else if GENERIC_TYPES[*g].starts_with("(ProbeB") { "ProbeB::new(tag)".to_string() } else if GENERIC_TYPES[*g] == "ProbeZ" { "ProbeZ::new(tag)".to_string() } else { "ProbeG::new(tag)".to_string() },
             };
             writeln!(out, "                {}: {},", nm, e).unwrap();
         }
